@@ -170,8 +170,14 @@ class GarbageCollector:
 
         try:
             markers = self.storage.list_files(INFLIGHT_PATH)
-        except Exception:
-            markers = []
+        except Exception as e:
+            # Not knowing which files are in flight is not "nothing is in
+            # flight": without the markers every uncommitted file older than the
+            # grace period would be deleted under a running transaction.
+            raise GarbageCollectionAborted(
+                f"Aborting GC: cannot list in-flight markers under {INFLIGHT_PATH}: {e}. "
+                f"Nothing was deleted."
+            ) from e
 
         for marker_path in markers:
             norm_marker = self._normalize_path(marker_path)
@@ -184,10 +190,10 @@ class GarbageCollector:
             basename = norm_marker.rsplit("/", 1)[-1]
             if not basename.endswith(".inflight"):
                 continue
-            data_rel = self._marker_target(norm_marker, basename)
+            targets = self._marker_targets(norm_marker, basename)
 
             if age_ok:
-                protected.add(data_rel)
+                protected.update(targets)
             else:
                 logger.warning(
                     f"Removing abandoned in-flight marker {norm_marker} "
@@ -198,19 +204,23 @@ class GarbageCollector:
                 except Exception as e:
                     logger.warning(f"Failed to delete stale marker {norm_marker}: {e}")
                     # Could not remove the marker -> keep protecting its file
-                    protected.add(data_rel)
+                    protected.update(targets)
 
         return protected
 
-    def _marker_target(self, marker_path: str, basename: str) -> str:
-        """Resolve which file a marker protects.
+    def _marker_targets(self, marker_path: str, basename: str) -> Set[str]:
+        """Resolve which file(s) a marker protects.
 
         The marker's payload names the protected path explicitly (it may be a
-        data file, a manifest, or a manifest list). Markers written by older
-        versions carry no payload; for those the historical convention -
-        "<data file basename>.inflight" under data/ - is assumed.
+        data file, a manifest, or a manifest list). When the payload cannot be
+        read or carries no usable path, the target is unknown: the marker is
+        named after the protected file's basename, so EVERY place that file can
+        live stays protected (data/ for markers of older versions without a
+        payload, and the manifests directory) - an unreadable marker must not
+        drop the protection of the manifest it was written for.
         """
-        fallback = f"data/{basename[: -len('.inflight')]}"
+        name = basename[: -len('.inflight')]
+        fallback = {f"data/{name}", f"{self.file_manager.manifests_path}/{name}"}
         try:
             payload = json.loads(self.storage.read_file(marker_path).decode("utf-8"))
             target = payload.get("file_path")
@@ -218,7 +228,7 @@ class GarbageCollector:
             return fallback
         if not isinstance(target, str) or not target:
             return fallback
-        return self._normalize_path(target)
+        return {self._normalize_path(target)}
 
     def _gc_prefix(self, prefix: str, reachable_set: Set[str], grace_period_ms: int) -> int:
         """Garbage collect files in a specific prefix."""
